@@ -46,6 +46,10 @@ class Outcome:
     def ok(self):
         return self.status == 0 and self.exc is None
 
+    def et_of(self, i):
+        """evapotranspiration (mm/h) on the step starting at absolute sample index i"""
+        return 0.125
+
     def describe(self):
         if self.exc is None:
             return "exit %s" % self.status
@@ -145,17 +149,22 @@ class Presentation:
         self.rain_scale = s_real / S
         self.inc_scale = j_real * (dt / 3600.0) / J
 
+    def et_of(self, i):
+        """evapotranspiration (mm/h) on the step starting at absolute sample index i"""
+        return 0.125
+
     def describe(self):
         return {k: getattr(self, k) for k in
                 ("dt", "e0", "s_real", "j_real", "S", "J", "gap", "gap_rain", "base", "zone", "gap_jump")}
 
     def layout(self, rec):
         """absolute sample index of each stretch's first sample"""
-        starts, p = [], 0
+        starts, p, last_gap = [], 0, 0
         for st in rec:
             starts.append(p)
-            p += len(st["rain"]) + self.gap
-        total = p - self.gap
+            last_gap = st.get("gap_after", self.gap)
+            p += len(st["rain"]) + last_gap
+        total = p - last_gap
         return starts, total
 
     def presentable(self, rec):
@@ -169,6 +178,8 @@ class Presentation:
         level_rows = []
         lev = self.base
         for st, p in zip(rec, starts):
+            if "first" in st:
+                lev = float(st["first"])
             for k, r in enumerate(st["rain"]):
                 rain[p + k] = r * self.rain_scale
             level_rows.append((t(p), lev))
@@ -179,7 +190,7 @@ class Presentation:
         rain_rows = [(t(i), rain[i]) for i in range(total)]
         # a little margin of rain / ET rows outside the level span
         rain_rows = [(t(-1), 0.0)] + rain_rows + [(t(total), 0.0)]
-        et_rows = [(t(i), 0.125) for i in range(-1, total + 2)]
+        et_rows = [(t(i), self.et_of(i)) for i in range(-1, total + 2)]
         return rain_rows, et_rows, level_rows
 
     def locate(self, rec, epoch):
